@@ -50,30 +50,10 @@ def r1_hot_paths_subscript(ctx):
         bool(subs) and not bad,
         f"the generated entry point calls `{short(bad[0], 60)}`: every call re-enters resolution even for a combination already resolved" if bad else "no OVLD.map[...] subscript in the call template",
     )
-    # (b) the node the rewriter emits for recurse / call_next
-    vc = rw.methods.get("visit_Call")
-    ctx.require(vc is not None, "the rewriter has no visit_Call")
-    ctx.touch(vc)
-    roles = A.rewriter_roles(repo)
-    ctx.require("map" in roles, "the re-compiler no longer binds the function's table under a name handed to the rewriter")
-    map_attr = roles["map"][0]
-    sub_ctor = [
-        n
-        for n in ast.walk(vc.node)
-        if isinstance(n, ast.Call) and call_name(n) == "ast.Subscript" and any(kw.arg == "value" and any(is_self_attr(x, map_attr) for x in ast.walk(kw.value)) for kw in n.keywords)
-    ]
-    attr_ctor = [
-        n
-        for n in ast.walk(rw.node)
-        if isinstance(n, ast.Call) and call_name(n) == "ast.Attribute" and any(isinstance(c, ast.Constant) and c.value in RESOLUTION_METHODS for c in ast.walk(n))
-    ]
-    ctx.ob(
-        f"{vc.key}:emits-subscript",
-        vc.loc(sub_ctor[0]) if sub_ctor else vc.loc(),
-        "rewritten recurse/call_next sites subscript the per-function table global",
-        bool(sub_ctor) and not attr_ctor,
-        "the rewriter emits a call into resolution code instead of a table subscript" if attr_ctor else "the rewriter no longer emits a subscript of the table global",
-    )
+    # (b) the node the rewriter emits for recurse / call_next (abstract execution)
+    from .rewriter import law_table_subscript
+
+    law_table_subscript(ctx)
     # (c) readers in the function class
     n_readers = 0
     for m in oc.methods.values():
